@@ -54,6 +54,17 @@ Inductive res (A : Type) := Ok (a : A) | Raise (e : pyexc).
 Arguments Ok {A} a.
 Arguments Raise {A} e.
 
+(* ------------------------------------------------------------------ the application's onUserError override *)
+(* user code: it may return or raise anything.  Both call sites studied here wrap it:
+       try: self.onUserError(...)  except: pass
+   [guarded_hook h] = the exception that leaves that statement: none, whatever the hook does. *)
+Inductive hook := HookReturns | HookRaises.
+Definition guarded_hook (h : hook) : option pyexc :=
+  match h with
+  | HookReturns => None
+  | HookRaises => None          (* swallowed by the bare except *)
+  end.
+
 (* ------------------------------------------------------------------ registries and define() *)
 Record registry := mkReg {
   ecls_to_uri : list (cls * list string);   (* _ecls_to_uri_pat : class -> URIs of its patterns (never empty) *)
@@ -194,6 +205,7 @@ Section Err.
 
   Section Caller.
     Variable construct : cls -> shape -> list V -> kw -> ctor_result.   (* ecls( *args, **kwargs ) : user code *)
+    Variable caller_hook : hook.                                         (* the caller application's onUserError *)
 
     Definition or_nil {A} (o : option (list A)) : list A := match o with Some l => l | None => [] end.
 
@@ -202,22 +214,29 @@ Section Err.
     Definition exception_from_message (r : registry) (m : errmsg) : res cexn * bool :=
       let a := or_nil (m_args m) in
       let k := or_nil (m_kwargs m) in
-      let '(exc, reported) :=
+      let '(exc, reported, escaped) :=
         match aget String.eqb (m_error m) (uri_to_ecls r) with
         | Some ecls =>
             let cr := if truthy_kw (m_kwargs m)
                       then (if truthy_args (m_args m) then construct ecls ArgsKwargs a k else construct ecls KwargsOnly [] k)
                       else (if truthy_args (m_args m) then construct ecls ArgsOnly a [] else construct ecls NoArgs [] []) in
-            match cr with CtorOk i => (Some i, false) | CtorRaise => (None, true) end
-        | None => (None, false)
+            match cr with
+            | CtorOk i => (Some i, false, None)
+            | CtorRaise => (None, true, guarded_hook caller_hook)     (* try: self.onUserError(...) except: pass *)
+            end
+        | None => (None, false, None)
         end in
-      let built :=
-        match exc with
-        | Some i => if c_truthy i then Ok i                      (* if not exc: *)
-                    else app_error_ctor (m_error m) a k
-        | None => app_error_ctor (m_error m) a k                  (* "the following ctor never fails .." *)
-        end in
-      (match built with Ok e => set_meta m e | Raise x => Raise x end, reported).
+      match escaped with
+      | Some x => (Raise x, reported)
+      | None =>
+          let built :=
+            match exc with
+            | Some i => if c_truthy i then Ok i                      (* if not exc: *)
+                        else app_error_ctor (m_error m) a k
+            | None => app_error_ctor (m_error m) a k                  (* "the following ctor never fails .." *)
+            end in
+          (match built with Ok e => set_meta m e | Raise x => Raise x end, reported)
+      end.
 
     (* ---------------- onMessage, ERROR branch: six pending tables keyed by the request type code ------------- *)
     Record request := mkRequest { rq_id : N; rq_done : bool (* txaio.is_called(on_reply) *) }.
@@ -228,6 +247,7 @@ Section Err.
     | Rejected (id : N) (e : cexn)          (* txaio.reject(on_reply, exc) *)
     | Dropped (id : N)                      (* on_reply already called: nothing happens *)
     | Escaped (id : N) (x : pyexc)          (* exception out of onMessage after the request was popped: on_reply never fires *)
+    | NoReply                               (* the callee never sent an ERROR: the call stays pending *)
     | Protocol.                             (* ProtocolError: ERROR for a non-pending request *)
 
     Fixpoint find_req (id : N) (l : list request) : option request :=
@@ -259,8 +279,11 @@ Section Err.
   Variable note : pyexc -> V.      (* the text argument of the replacement ERROR (an f-string) *)
 
   (* messages handed to transport.send, in order (the first send may have raised) *)
-  Definition invocation_error (r : registry) (traceback_app : bool) (tbv : option V) (req : N) (e0 : exn)
+  Definition invocation_error (callee_hook : hook) (r : registry) (traceback_app : bool) (tbv : option V) (req : N) (e0 : exn)
              (sr : send_result) : list errmsg :=
+    match guarded_hook callee_hook with            (* try: self.onUserError(err, errmsg) except: pass *)
+    | Some _ => []                                 (* the errback would abort here: nothing is ever sent *)
+    | None =>
     let e := e0 in   (* txaio.failure_message(err) / failure_format_traceback(err) call str(exc): no side effect on exc *)
     let tb := if traceback_app then tbv else None in
     let reply := message_from_exception r 68 req e tb in
@@ -268,15 +291,16 @@ Section Err.
     | SendOk => [reply]
     | SendSerializationError => [reply; mkErr 68 req INVALID_PAYLOAD (Some [note TypeError]) None no_meta]
     | SendPayloadExceeded => [reply; mkErr 68 req PAYLOAD_SIZE_EXCEEDED (Some [note RuntimeError]) None no_meta]
+    end
     end.
 
   (* the router (dealer) forwards ERROR(INVOCATION, inv_req) as ERROR(CALL, call_req) with the same URI and payload *)
-  Definition end_to_end (construct : cls -> shape -> list V -> kw -> ctor_result)
+  Definition end_to_end (callee_hook : hook) (construct : cls -> shape -> list V -> kw -> ctor_result) (caller_hook : hook)
              (callee_reg caller_reg : registry) (traceback_app : bool) (tbv : option V) (e : exn)
              (inv_req call_req : N) (meta : string -> option MV) (p : pending) : pending * delivery :=
-    match invocation_error callee_reg traceback_app tbv inv_req e SendOk with
-    | reply :: _ => on_error construct caller_reg p (over_the_wire 48 call_req meta reply)
-    | [] => (p, Protocol)
+    match invocation_error callee_hook callee_reg traceback_app tbv inv_req e SendOk with
+    | reply :: _ => on_error construct caller_hook caller_reg p (over_the_wire 48 call_req meta reply)
+    | [] => (p, NoReply)
     end.
 End Err.
 
@@ -299,6 +323,7 @@ Arguments Rejected {V MV}.
 Arguments Dropped {V MV}.
 Arguments Escaped {V MV}.
 Arguments Protocol {V MV}.
+Arguments NoReply {V MV}.
 Arguments truthy_kw {V}. Arguments truthy_args {V}. Arguments add_traceback {V}. Arguments err_uri {V}.
 Arguments error_fields {V}. Arguments no_meta {MV}. Arguments message_from_exception {V MV}.
 Arguments marshal_tail {V MV}. Arguments parse_tail {V}. Arguments over_the_wire {V MV}.
